@@ -507,6 +507,9 @@ func TestReplay(t *testing.T) {
 	if err != nil {
 		t.Fatal(err)
 	}
+	if replayHandover(t, b) {
+		return
+	}
 	var c Case
 	var hr struct {
 		Case *Case `json:"case"`
